@@ -53,6 +53,8 @@ def _with_checkpoint(gen):
             # built contract objects) - a checkpoint to disk, a spawned worker
             sc["resume_at"] = rng.randint(2, len(sc["script"]) - 1)
             sc["twin"] = None
+        if i % 4 == 1:
+            sc["neighbour"] = i      # an unrelated account in the same process, moved in between this one's operations
         return sc
     return wrapped
 
